@@ -335,3 +335,69 @@ _c = Contract('monoidal.Diagram.__init__', is_init=True, params=_p_diagram_init_
               loops={0: LoopSpec(assume=_scan_inv_assume, check=_scan_inv_check)})
 _c.label = 'monoidal.Diagram.__init__[scan]'
 CONTRACTS[_c.label] = _c
+
+
+# ---------------------------------------------------------------- cat.Arrow.__init__, scan path (C01)
+#
+# `Arrow(dom, cod, boxes)`: the constructor scans the boxes.  Postcondition from the property statement: if it
+# returns, the boxes chain from dom to exactly cod (an empty list needs dom == cod).  Objects are modelled as
+# sequences (only their equality is used).
+
+def _ascan_raw(boxes, i):
+    assert len(boxes.segs) == 1 and boxes.segs[0][0] == 'sub' and T.int_val(boxes.segs[0][2]) == 0
+    return boxes.segs[0][1]._elem(i)
+
+
+def _ascan_assume(interp, env, k, seq, at_exit=False):
+    ex = interp.ex
+    dom, boxes = env.lookup('dom'), env.lookup('boxes')
+    base = boxes.segs[0][1]
+    scan = z3.Const(T.fresh_name('ascan') + '.scan', T.TyS)
+    ex.assume_guarded(k == 0, scan == dom.t)
+    if T.int_val(k) != 0 and ex.feasible(k > 0):
+        ex.assume_guarded(k > 0, _ascan_raw(boxes, T.I(0)).dom().t == dom.t)
+        ex.assume_guarded(k > 0, _ascan_raw(boxes, z3.simplify(k - 1)).cod().t == scan)
+    ex.add_qhyp([base], lambda i: [(z3.And(0 <= i, i + 1 < k),
+                                    _ascan_raw(boxes, i).cod().t == _ascan_raw(boxes, i + 1).dom().t)])
+    env.set('scan', VTy(scan))
+
+
+def _ascan_check(interp, env, k, label, seq):
+    ex = interp.ex
+    dom, boxes, scan = env.lookup('dom'), env.lookup('boxes'), env.lookup('scan')
+
+    def empty():
+        ex.assume(k == 0)
+        ex.prove(label + ':scan == dom before the first box', T.ty_eq(scan.t, dom.t))
+    ex.side(empty)
+
+    def nonempty():
+        ex.assume(k > 0)
+        ex.prove(label + ':boxes[0].dom == dom', T.ty_eq(ex.list_at(boxes, T.I(0)).dom().t, dom.t))
+        ex.prove(label + ':scan == boxes[k-1].cod', T.ty_eq(ex.list_at(boxes, z3.simplify(k - 1)).cod().t, scan.t))
+    ex.side(nonempty)
+
+    def chain(i):
+        ex.prove(label + ':boxes[i].cod == boxes[i+1].dom',
+                 T.ty_eq(ex.list_at(boxes, i).cod().t, ex.list_at(boxes, z3.simplify(i + 1)).dom().t))
+    ex.forall(z3.simplify(k - 1), chain)
+
+
+def _p_arrow_init_scan(ex):
+    return [VObject('cat.Arrow'), ex.sym_ty('dom'), ex.sym_ty('cod'), ex.sym_arrow('a', wf=False).boxes], {}
+
+
+def _e_arrow_init_scan(interp, args, kwargs, obj):
+    ex = interp.ex
+    a = interp.world.record_of('cat.Arrow', obj)
+    ex.prove_equal('C01:Arrow.dom stored', a.dom, args[1])
+    ex.prove_equal('C01:Arrow.cod stored', a.cod, args[2])
+    ex.prove_equal('C01:Arrow.boxes stored', a.boxes, args[3])
+    prove_wfA(ex, 'C01:Arrow.init.establishes_wf', a)
+
+
+_c = Contract('cat.Arrow.__init__', is_init=True, params=_p_arrow_init_scan, ensures=_e_arrow_init_scan,
+              on_raise=lambda *a: None, property_ids=('C01',),
+              loops={0: LoopSpec(assume=_ascan_assume, check=_ascan_check)})
+_c.label = 'cat.Arrow.__init__[scan]'
+CONTRACTS[_c.label] = _c
